@@ -39,8 +39,12 @@ def _sites_of_interest(w, spec):
         if isinstance(f, ast.Attribute) and isinstance(f.value, ast.Name) and f.value.id == "c_ast":
             label, names = f.attr, spec.get(f.attr, [])
         elif isinstance(f, ast.Name) and f.id in getattr(w, "localfns", {}):
-            label = "fn:" + f.id
-            names = [a.arg for a in w.localfns[f.id].args.args]
+            label = "fn:" + f.id          # renamed to fn#k (rename-invariant) by _one
+            names = [f"p{i}" for i, _ in enumerate(w.localfns[f.id].args.args)]
+            for kname in list(n._kws):      # keyword arguments of a nested function: map to positions
+                pn = [a.arg for a in w.localfns[f.id].args.args]
+                if kname in pn:
+                    n._kws[f"p{pn.index(kname)}"] = n._kws.pop(kname)
         elif isinstance(f, ast.Attribute) and isinstance(f.value, ast.Name) and f.value.id == w.selfname and f.attr in BUILDERS:
             label = "call:" + f.attr
             cm = S.module("c_parser").methods("CParser").get(f.attr)
@@ -84,6 +88,11 @@ def _one(w, spec):
     for st, v, g, env in w.returns:
         rets |= set(W.simp_set(v))
     apps = {}
+    accs = sorted({(ln, r) for r, ds, ln in getattr(w, "append_roots", {}).values() if not [d for d in ds if d[0] not in ("list", "tuple", "const")]})
+    acc_order = []
+    for _, r in accs:
+        if r not in acc_order:
+            acc_order.append(r)
     for tgt, lst in w.appends.items():
         seen_nodes = set()
         for provs, op, node, guards in lst:
@@ -94,8 +103,38 @@ def _one(w, spec):
             for p2, op2, n2, _ in lst:
                 if n2 is node:
                     allp |= set(p2)
-            apps.setdefault(tgt, []).append([W.simp_set(allp), op])
+            apps.setdefault(_norm_target(w, tgt, acc_order), []).append([W.simp_set(allp), op])
+    # nested function names are local names: render them by definition order
+    lf = sorted(getattr(w, "localfns", {}), key=lambda nme: w.localfns[nme].lineno)
+    if lf:
+        import re as _re
+
+        def ren(text):
+            for k, nme in enumerate(lf):
+                text = _re.sub(r"(?<![A-Za-z0-9_])" + _re.escape(nme) + r"(?![A-Za-z0-9_])", f"fn#{k}", text)
+            return text
+        recs = [[ren(lab), {k: [ren(x) for x in v] for k, v in fa.items()}] for lab, fa in recs]
+        rets = {ren(x) for x in rets}
+        apps = {ren(k): [[[ren(x) for x in provs], op] for provs, op in v] for k, v in apps.items()}
     return recs, rets, apps
+
+
+def _norm_target(w, key, acc_order):
+    """Rename-invariant name of an append target: the provenance of its root variable instead of the variable's name."""
+    roots = getattr(w, "append_roots", {})
+    if key not in roots:
+        return key
+    root, descs, _ = roots[key]
+    rest = key[len(root):]
+    if root == w.selfname:
+        return "self" + rest
+    params = {a.arg for a in w.fn.args.args}
+    if root in params and all(d == ("param", root) for d in descs):
+        return "param:" + root + rest
+    solid = [d for d in descs if d[0] not in ("list", "tuple", "const")]
+    if solid:
+        return "|".join(W.simp_set(solid)) + rest
+    return f"acc#{acc_order.index(root)}" + rest
 
 
 def current():
